@@ -934,13 +934,21 @@ Definition reset_ok (k : ckind) (o : op) (before after : option arr) : bool :=
 
 Definition all_zero (a : arr) : bool := forallb (cell_eqb (Fin 0)) (a_data a).
 
+(* The judge is a little more lenient than the theorems about the model: a DataArray handed to an ArrayBase bucket
+   is judged by its numpy form (an implementation that converted it with np.asarray instead of refusing it would
+   store a legal array: the property text does not call that a violation). *)
+Definition assignable (k : ckind) (r c : nat) (a : arr) : bool :=
+  arr_form_ok k r c a || (negb (is_photon k) && arr_form_ok k r c (as_numpy a)).
+
+Definition expected_store (k : ckind) (a : arr) : arr := if is_photon k then clip_arr a else as_numpy a.
+
 Definition assign_violations (k : ckind) (r c : nat) (o : op) (before : option arr) (ob : obs) : list nat :=
   match assignment_of k o before with
   | Some (AsgArr a) =>
       if is_raise (o_out ob) then []
-      else if negb (arr_form_ok k r c a) then [7]
+      else if negb (assignable k r c a) then [7]
       else match o_out ob, o_state ob with
-           | Done, Some s => if arr_same_values (stored_form k a) s then [] else [8]
+           | Done, Some s => if arr_same_values (expected_store k a) s then [] else [8]
            | Done, None => [8]
            | _, _ => []
            end
